@@ -11,9 +11,27 @@ NS = 'http://www.w3.org/2000/svg'
 PATH_D = ['M1 2 L 4 2 C 5 3 5 5 3 6 Z', 'M 0 0 A 5 3 30 0 1 6 2 L 1 1 Q 2 4 -1 3']
 
 
+class _Num(object):
+    """an integer that prints in a seeded legal SVG number spelling (3 -> 3.0, 30e-1, .3e1, +3 ...)"""
+    def __init__(self, v, rnd):
+        self.v, self.rnd = v, rnd
+
+    def __str__(self):
+        if self.rnd is None or self.rnd.random() < 0.5:
+            return str(self.v)
+        return pm.spell_int(self.v, self.rnd, 'forms')
+
+
 def op_text(o, rnd=None):
-    k, a = o['k'], o['a']
+    k = o['k']
     sep = ',' if (rnd is None or rnd.random() < 0.5) else ' '
+    a = [_Num(v, rnd) for v in (o['a'] if k != 'rotate' and k != 'rotatec' and not k.startswith('skew') else [])] or o['a']
+    if k in ('translate', 'scale'):
+        return '%s(%s%s%s)' % (k, a[0], sep, a[1])
+    if k in ('translate1', 'scale1'):
+        return '%s(%s)' % (k[:-1], a[0])
+    if k == 'matrix':
+        return 'matrix(%s)' % sep.join(str(v) for v in a)
     if k in ('translate', 'scale'):
         return '%s(%d%s%d)' % (k, a[0], sep, a[1])
     if k in ('translate1', 'scale1'):
@@ -48,8 +66,9 @@ def shape_xml(kind, k, attrs, tf, extra=''):
     if kind == 'rect':
         return '<rect%s x="%d" y="%d" width="%d" height="%d"/>' % (i, attrs['x'], attrs['y'], attrs['w'], attrs['h'])
     if kind == 'rrect':
+        rx = ' rx="%d"' % attrs['rx'] if attrs['rx'] else ''
         ry = ' ry="%d"' % attrs['ry'] if attrs['ry'] else ''
-        return '<rect%s x="%d" y="%d" width="%d" height="%d" rx="%d"%s/>' % (i, attrs['x'], attrs['y'], attrs['w'], attrs['h'], attrs['rx'], ry)
+        return '<rect%s x="%d" y="%d" width="%d" height="%d"%s%s/>' % (i, attrs['x'], attrs['y'], attrs['w'], attrs['h'], rx, ry)
     if kind == 'circle':
         return '<circle%s cx="%d" cy="%d" r="%d"/>' % (i, attrs['cx'], attrs['cy'], attrs['r'])
     if kind == 'ellipse':
